@@ -163,7 +163,7 @@ Definition tc_bin (o : binop) (a b : vty) : vty * list diag :=
        | Some TZahl, Some TZahl => Some TZahl
        | Some TByte, Some TByte => Some TByte
        | Some TKomma, _ | _, Some TKomma => Some TKomma
-       | _, _ => Some TByte
+       | _, _ => Some TZahl                      (* Zahl and Byte mixed: the Byte is widened (5ca8f5e) *)
        end, validate2 vnumeric a b)
   | BDurch => (Some TKomma, validate2 vnumeric a b)
   | BMod => (if vty_eqb a (Some TZahl) || vty_eqb b (Some TZahl) then Some TZahl else Some TByte, validate2 vindex a b)
